@@ -8,7 +8,7 @@
    kind 1  Linear / kind 2 Log scale:
            17 k base min max  omax minlevel maxlevel
               st nmajor major.. nminor minor..                      Ticks(o)      (st 0 ok, 2 panic)
-              nlev { level count st nticks tick.. }*                CountTicks / TicksAtLevel
+              nlev { level count st nticks tick.. }*                CountTicks / TicksAtLevel (st 3: TicksAtLevel not called)
               nomax nminlevel nmaxlevel                             the options o' of Nice and of the calls after it
               st nmin nmax map(nmin) map(nmax)  st nmin2 nmax2      Nice(o') once (then Map of the new ends), twice
               st nmajor' major'..                                   Ticks(o') after Nice(o')
@@ -170,13 +170,15 @@ Definition lin_at_adm (base eb : Z) (mn mx : Q) (tolv : Q -> Q) (l : Z) (cnt : o
   let '(F, L) := lin_first_last_adm mn mx sp false in
   existsb (fun f => existsb (fun la =>
      match cnt with Some c => (c =? la - f + 1)%Z | None => true end &&
-     close_list tolv (tick_seq (Z.to_nat (la - f + 1)) f sp) obs) L) F.
+     (* never enumerate a huge level (the guard is an [if]: vm_compute evaluates both sides of &&) *)
+     (if (la - f + 1 =? Z.of_nat (length obs))%Z then close_list tolv (tick_seq (Z.to_nat (la - f + 1)) f sp) obs else false)) L) F.
 (* no level fits, admissibly: the exact search found level c close to the top of the window and
    every level from c up may have more than Max ticks *)
 Definition lin_none_adm (o : tickopts) (base eb : Z) (mn mx : Q) (roundOut : bool) (hi : Z) (r : flres) : bool :=
   match r with
-  | FL_ok c => (hi - c <=? 3)%Z &&
-               forallb (fun l => (o_max o <? lin_cnt_max base eb mn mx roundOut l)%Z) (zrange c (Z.to_nat (hi - c + 1)))
+  | FL_ok c => if (hi - c <=? 3)%Z
+               then forallb (fun l => (o_max o <? lin_cnt_max base eb mn mx roundOut l)%Z) (zrange c (Z.to_nat (hi - c + 1)))
+               else false
   | _ => false
   end.
 (* Ticks(o), admissibly: for a level L of the window near the exact one, major is an admissible
@@ -189,15 +191,16 @@ Definition lin_ticks_adm (o : tickopts) (base eb : Z) (mn mx : Q) (tolv : Q -> Q
   | Some (lo, hi) =>
       (1 <=? o_max o)%Z &&
       (let c := match r with FL_ok l => l | _ => (hi + 1)%Z end in
-       existsb (fun L => (lo <=? L)%Z && (L <=? hi)%Z && (Z.of_nat (length major) <=? o_max o)%Z &&
+       if existsb (fun L => (lo <=? L)%Z && (L <=? hi)%Z && (Z.of_nat (length major) <=? o_max o)%Z &&
                   lin_at_adm base eb mn mx tolv L None major &&
                   match minor with
                   | Some mi => ((L =? lo)%Z || (o_max o <? Z.of_nat (length mi))%Z) &&
                                lin_at_adm base eb mn mx tolv (L - 1) None mi
                   | None => (L =? lo)%Z || (o_max o <? lin_cnt_max base eb mn mx false (L - 1))%Z
                   end) (zrange (c - 3) 7)
-       || (match major, minor with [], None => true | [], Some [] => true | _, _ => false end &&
-           lin_none_adm o base eb mn mx false hi r))
+       then true
+       else if match major, minor with [], None => true | [], Some [] => true | _, _ => false end
+            then lin_none_adm o base eb mn mx false hi r else false)
   end.
 (* Nice(o) on the ordered (widened) domain [smn, smx], admissibly *)
 Definition lin_nice_adm (o : tickopts) (base eb : Z) (smn smx : Q) (tolv : Q -> Q) (rn : flres) (a b : Q) : bool :=
@@ -206,7 +209,7 @@ Definition lin_nice_adm (o : tickopts) (base eb : Z) (smn smx : Q) (tolv : Q -> 
   | Some (lo, hi) =>
       (1 <=? o_max o)%Z &&
       (let c := match rn with FL_ok l => l | _ => (hi + 1)%Z end in
-       existsb (fun L => (lo <=? L)%Z && (L <=? hi)%Z &&
+       if existsb (fun L => (lo <=? L)%Z && (L <=? hi)%Z &&
                   ((L =? lo)%Z || (o_max o <? lin_cnt_max base eb smn smx true (L - 1))%Z) &&
                   let sp := lin_spacing base eb L in
                   let '(F, La) := lin_first_last_adm smn smx sp true in
@@ -216,7 +219,8 @@ Definition lin_nice_adm (o : tickopts) (base eb : Z) (smn smx : Q) (tolv : Q -> 
                      let x := if f64_fin nmn && Qleb nmn smn then nmn else smn in
                      let y := if f64_fin nmx && Qleb smx nmx then nmx else smx in
                      within (tolv x) x a && within (tolv y) y b) La) F) (zrange (c - 3) 7)
-       || (within (tolv smn) smn a && within (tolv smx) smx b && lin_none_adm o base eb smn smx true hi rn))
+       then true
+       else if within (tolv smn) smn a && within (tolv smx) smx b then lin_none_adm o base eb smn smx true hi rn else false)
   end.
 
 (* Above level [lin_cap] the spacing eb^(l/2) >= 2^(l/2) exceeds 8 (|mn| + |mx| + 1), so the
@@ -271,13 +275,29 @@ Definition ticks_exact (t : ticks_res) (st : Z) (tolv : Q -> Q) (major : list xr
   | TR_panic => (st =? 2)%Z
   end.
 
+(* CountTicks returns int(lastN - firstN + 1) computed in float64, saturated at maxInt = 2^63 - 1
+   (linear.go CountTicks): compared exactly up to 1000 ticks (where the tick list is compared too,
+   with the admissible set for a floor/ceil within rounding of an integer); beyond that - levels
+   far below the natural one - each of the two floor/ceil may fall either way and the two float
+   quotients are rounded (their magnitude is up to 1e3 times the count):
+   |difference| <= 2 + 1e-9 count allowed *)
+Definition count_ok (c obs : Z) : bool :=
+  let cs := Z.min c MAXINT in
+  (obs =? cs)%Z || ((1000 <? c)%Z && (Z.abs (obs - cs) <=? 2 + c / 1000000000)%Z).
+(* status 3 = the harness did not call TicksAtLevel (it does so when CountTicks reports more than
+   2000 ticks): accepted only where the MODEL's count exceeds 1000; otherwise a tick list of
+   exactly the model's count is demanded and compared *)
 Definition lin_level_exact (base eb : Z) (mn mx : Q) (tolv : Q -> Q) (lv : levobs) : bool :=
   let l := lv_level lv in
-  (lv_st lv =? 0)%Z && (lv_count lv =? lin_count base eb mn mx false l)%Z &&
-  close_list tolv (lin_ticks_at base eb mn mx false l) (lv_ticks lv).
+  let c := lin_count base eb mn mx false l in
+  count_ok c (lv_count lv) &&
+  if (lv_st lv =? 3)%Z then (1000 <? c)%Z && match lv_ticks lv with [] => true | _ => false end
+  else (lv_st lv =? 0)%Z &&
+       (* the model's list is only formed when it has the observed length ([if]: vm_compute evaluates both sides of &&) *)
+       (if (c =? Z.of_nat (length (lv_ticks lv)))%Z then close_list tolv (lin_ticks_at base eb mn mx false l) (lv_ticks lv) else false).
 Definition lin_level_adm (base eb : Z) (mn mx : Q) (tolv : Q -> Q) (lv : levobs) : bool :=
-  (lv_st lv =? 0)%Z && (lv_count lv =? Z.of_nat (length (lv_ticks lv)))%Z &&
-  lin_at_adm base eb mn mx tolv (lv_level lv) (Some (lv_count lv)) (lv_ticks lv).
+  if (lv_st lv =? 0)%Z && (lv_count lv =? Z.of_nat (length (lv_ticks lv)))%Z
+  then lin_at_adm base eb mn mx tolv (lv_level lv) (Some (lv_count lv)) (lv_ticks lv) else false.
 
 (* is one of the floor/ceil decisions at this level within the window? (evidence tag only) *)
 Definition lin_amb_level (base eb : Z) (mn mx : Q) (roundOut : bool) (level : Z) : bool :=
@@ -308,8 +328,8 @@ Definition judge_linear (c : sccase) : list Z :=
       let '(a, b) := lin_order mn mx in
       let r := if degenerate then FL_fail else lin_search o base eb a b false in
       let g10 := grp (ticks_exact (lin_ticks_from base eb mn mx o r) (so_st ob) tolv (so_major ob) (Some (so_minor ob)))
-                     (fun _ => negb degenerate && (so_st ob =? 0)%Z &&
-                               lin_ticks_adm o base eb a b tolv r (so_major ob) (Some (so_minor ob))) in
+                     (fun _ => if negb degenerate && (so_st ob =? 0)%Z
+                               then lin_ticks_adm o base eb a b tolv r (so_major ob) (Some (so_minor ob)) else false) in
       (* per-level CountTicks / TicksAtLevel *)
       let g20 := grp (forallb (lin_level_exact base eb mn mx tolv) (so_levels ob))
                      (fun _ => forallb (fun lv => lin_level_exact base eb mn mx tolv lv || lin_level_adm base eb mn mx tolv lv)
@@ -335,7 +355,7 @@ Definition judge_linear (c : sccase) : list Z :=
       match so_nmin ob, so_nmax ob with
       | XFin ao, XFin bo =>
           let g30 := grp ((so_nst ob =? 0)%Z && within (tolv x) x ao && within (tolv y) y bo)
-                         (fun _ => (so_nst ob =? 0)%Z && lin_nice_adm no base eb na nb tolv rn ao bo) in
+                         (fun _ => if (so_nst ob =? 0)%Z then lin_nice_adm no base eb na nb tolv rn ao bo else false) in
           (* on observed values: the domain never shrinks *)
           let g35 := law (Qleb ao a && Qleb b bo) false in
           (* the object after Nice holds [ao, bo]: Ticks(o) on it, and Nice(o) once more *)
@@ -343,7 +363,7 @@ Definition judge_linear (c : sccase) : list Z :=
           let '(a3, b3) := lin_order ao bo in
           let r3 := if deg3 then FL_fail else lin_search no base eb a3 b3 false in
           let g36 := grp (ticks_exact (lin_ticks_from base eb ao bo no r3) (so_st3 ob) tolv (so_major3 ob) None)
-                         (fun _ => negb deg3 && (so_st3 ob =? 0)%Z && lin_ticks_adm no base eb a3 b3 tolv r3 (so_major3 ob) None) in
+                         (fun _ => if negb deg3 && (so_st3 ob =? 0)%Z then lin_ticks_adm no base eb a3 b3 tolv r3 (so_major3 ob) None else false) in
           let '(na3, nb3) := lin_start ao bo in
           let rn3 := lin_search no base eb na3 nb3 true in
           let '(x3, y3) := lin_nice_from base eb na3 nb3 rn3 in
